@@ -20,8 +20,8 @@ EXTENDS BrokerAbs, Json, IOUtils, TLCExt
 
 Traces == JsonDeserialize(IOEnv.TRACE_FILE)
 
-VARIABLES tid, l, calls, chk, devs, taint
-tvars == <<tid, l, calls, chk, devs, taint>>
+VARIABLES tid, l, calls, chk, devs, taint, rdl, rdls, dead
+tvars == <<tid, l, calls, chk, devs, taint, rdl, rdls, dead>>
 allvars == <<vars, tvars>>
 
 Ev == Traces[tid][l]
@@ -34,16 +34,16 @@ Call(k) == IF k \in DOMAIN calls THEN calls[k] ELSE NoCall
 Done(k) == calls' = [calls EXCEPT ![k].done = TRUE]
 
 TInit == /\ Init
-         /\ tid \in 1..Len(Traces) /\ l = 1 /\ calls = <<>> /\ chk = {} /\ devs = {} /\ taint = {}
+         /\ tid \in 1..Len(Traces) /\ l = 1 /\ calls = <<>> /\ chk = {} /\ devs = {} /\ taint = {} /\ rdl = [i \in Ids |-> 0] /\ rdls = [i \in Ids |-> 0] /\ dead = {}
          /\ TLCSet(tid, 1)
 
 THdr == /\ Is("hdr") /\ Step
         /\ chk' = ToSet(Ev.chk) /\ devs' = ToSet(Ev.devs)
-        /\ UNCHANGED <<vars, calls, taint>>
+        /\ UNCHANGED <<vars, calls, taint, rdl, rdls, dead>>
 
 TCons == /\ Is("cons") /\ Step
          /\ cons' = [cons EXCEPT ![Ev.c] = [on |-> FALSE, q |-> Ev.q, cat |-> Ev.cat, topics |-> ToSet(Ev.topics)]]
-         /\ UNCHANGED <<now, st, loc, meta, holder, origin, deliv, ret, norder, transit, pend, calls, chk, devs, taint>>
+         /\ UNCHANGED <<now, st, loc, meta, holder, origin, deliv, ret, norder, transit, pend, calls, chk, devs, taint, rdl, rdls, dead>>
 
 (* C05 bounded latency: a consume() call of a normal consumer that has been waiting since before *)
 (* message i fell due is not still empty-handed after i's deadline (dl = due + latency bound),    *)
@@ -60,14 +60,14 @@ Starved(t) ==
 TTime == /\ Is("time") /\ Step
          /\ Ev.now >= now /\ now' = Ev.now
          /\ ("latency" \in chk => ~Starved(Ev.now))
-         /\ UNCHANGED <<st, loc, meta, holder, origin, deliv, ret, cons, norder, transit, pend, calls, chk, devs, taint>>
+         /\ UNCHANGED <<st, loc, meta, holder, origin, deliv, ret, cons, norder, transit, pend, calls, chk, devs, taint, rdl, rdls, dead>>
 
 TBegin == /\ Is("begin") /\ Step
           /\ calls' = (Ev.k :> [op |-> Ev.op, c |-> Ev.c, i |-> Ev.i, m |-> MetaOf(Ev.m), done |-> FALSE, t0 |-> now,
                                 h0 |-> (Ev.i # 0 /\ Ev.c # 0 /\ Held(Ev.c, Ev.i))]) @@ calls
           /\ IF Ev.op = "start" THEN Start(Ev.c)
              ELSE UNCHANGED vars
-          /\ UNCHANGED <<chk, devs, taint>>
+          /\ UNCHANGED <<chk, devs, taint, rdl, rdls, dead>>
 
 -----------------------------------------------------------------------------
 (* Deviation actions: behaviours of the pinned code that the contract forbids.  They are        *)
@@ -190,6 +190,14 @@ TMove ==
           \/ /\ cl.op = "finish"
              /\ \E pl \in Cats : ReturnHeld(cl.c, i, pl)
              /\ UNCHANGED <<calls, taint>>
+          \* C03: the in-flight message of a consumer whose process died becomes deliverable again,
+          \* once its execution timeout has elapsed -- and not before, and never while the holder is alive
+          \/ /\ k = 0 /\ holder[i] \in dead
+             /\ \/ "reclaim" \in chk => now > rdl[i]
+                \* (known finding: Redis keeps the in-flight clock in whole seconds: up to < 1 s early)
+                \/ Dev("redis_reclaim_whole_second") /\ now > rdls[i]
+             /\ \E pl \in Cats : ReturnHeld(holder[i], i, pl)
+             /\ UNCHANGED <<calls, taint>>
           \* ---- deviations of listed known findings (only in re-validation; the message is tainted from here on)
           \/ /\ \/ Ev.c # 0 /\ DevRedisWholeSecond(Ev.c, i)
                 \/ Ev.c # 0 /\ DevRedisLifoWindow(Ev.c, i)
@@ -201,7 +209,9 @@ TMove ==
              /\ UNCHANGED calls /\ taint' = taint \cup {i}
           \/ /\ FreeMove(i, new, Ev.c) /\ UNCHANGED <<calls, taint>>
        /\ loc'[i] = new
-    /\ UNCHANGED <<chk, devs>>
+    /\ rdl' = IF Ev.rdl # 0 THEN [rdl EXCEPT ![Ev.i] = Ev.rdl] ELSE rdl
+    /\ rdls' = IF Ev.rdl # 0 THEN [rdls EXCEPT ![Ev.i] = Ev.rdls] ELSE rdls
+    /\ UNCHANGED <<chk, devs, dead>>
 
 (* End of a call.  ok: the effect must have been applied.  exc/cancel: all or nothing.           *)
 TEnd ==
@@ -231,15 +241,20 @@ TEnd ==
                  /\ IF Ev.st = "ok" THEN Stop(cl.c) ELSE UNCHANGED vars
                  /\ Done(k) /\ taint' = taint
             [] OTHER -> UNCHANGED vars /\ UNCHANGED <<calls, taint>>
-    /\ UNCHANGED <<chk, devs>>
+    /\ UNCHANGED <<chk, devs, rdl, rdls, dead>>
 
 (* full observation of the broker: the contract state must agree with it for every id *)
 TObs == /\ Is("obs") /\ Step
         /\ \A j \in Ids : loc[j] = (IF j <= Len(Ev.v) THEN Vec(Ev.v[j]) ELSE Zero)
-        /\ UNCHANGED <<vars, calls, chk, devs, taint>>
+        /\ UNCHANGED <<vars, calls, chk, devs, taint, rdl, rdls, dead>>
+
+(* the process owning these consumers died without any cleanup *)
+TCrash == /\ Is("crash") /\ Step
+          /\ dead' = dead \cup ToSet(Ev.cs)
+          /\ UNCHANGED <<vars, calls, chk, devs, taint, rdl, rdls>>
 
 TraceConsCfgs == {[c \in Consumers |-> [on |-> FALSE, q |-> 0, cat |-> "n", topics |-> {}]]}
-TNext == THdr \/ TObs \/ TCons \/ TTime \/ TBegin \/ TMove \/ TEnd
+TNext == THdr \/ TCrash \/ TObs \/ TCons \/ TTime \/ TBegin \/ TMove \/ TEnd
 TSpec == TInit /\ [][TNext]_allvars
 
 Progress == TLCSet(tid, IF TLCGet(tid) < l THEN l ELSE TLCGet(tid))
